@@ -52,7 +52,7 @@ P = "Xmp.Downmix."
 REQUIRED = [P + n for n in (
     "C13_unsigned", "C13_unsigned_offsets", "C13_8_is_high_byte", "C13_amp_doubles", "C13_amp_doubles_observable",
     "C13_amp_api_range", "C13_buffer_layout", "C13_ticksize_guard", "C13_frame_encodings", "C13_timeline", "C13_timeline_writers",
-    "seqWriters_outside_mixer", "seqWriters_scan_sane", "shifts_match_code", "offsets_match_code", "limits_consistent",
+    "cap_fits", "cap_assigned_is_guard", "seqWriters_outside_mixer", "seqWriters_scan_sane", "shifts_match_code", "offsets_match_code", "limits_consistent",
     "fmt_bits_distinct")]
 
 # normalised-text fingerprints of the modelled C functions on the tree the model was written against;
@@ -216,7 +216,9 @@ def run_downmix(ck, consts, budget_mul):
     # voiceless frames with an exactly computable tick size: ticksize refusal / minimum, the guard of
     # libxmp_mixer_prepare, the size cap and the format dispatch of the final stage vs the model
     mx = consts["maxFramesize"]
-    fs = [-5, 0, 1, 7, 8, 9, 10, 441, 882, mx // 2 - 1, mx // 2, mx // 2 + 1, mx - 1, mx, mx + 1, 2 * mx, 100000,
+    cap = consts.get("ticksizeCap", mx // 4)
+    fs = [-5, 0, 1, 7, 8, 9, 10, 441, 882, cap - 1, cap, cap + 1, 2 * cap, mx // 2 - 1, mx // 2, mx // 2 + 1, mx - 1, mx,
+          mx + 1, 2 * mx, 100000,
           (1 << 31) - 1, (1 << 31) - 2]
     fs += [ck.rng.randint(1, mx) for _ in range(8 if quick else 200)]
     plines = ["prep %d %d %d" % (fmt, f, ck.rng.randint(0, 3)) for f in fs for fmt in range(8)]
@@ -229,9 +231,11 @@ def run_downmix(ck, consts, budget_mul):
                      "final mixer stage on a voiceless context aborted (rc=%d): %s" % (rc, sig))
     else:
         rp = [l for l in real if l.startswith("prep ")]
-        for f in [l for l in real if l.startswith("oracle_fail")][:2]:
-            ck.violation("oracle:downmix:overrun_frame", {"kind": "downmix", "values": [], "script": "\n".join(plines), "line": f},
-                         "the final stage wrote past the reported frame size: " + f)
+        for f in [l for l in real if l.startswith("oracle_fail")][:3]:
+            m = re.match(r"oracle_fail (\w+) x=(-?\d+) amp=(\d+)", f)
+            kind = m.group(1) if m else "?"
+            ck.violation("oracle:voiceless:" + kind, {"kind": "downmix", "values": [], "script": "\n".join(plines), "line": f},
+                         "frame rendered without voices (tick size x): relation '%s' fails: %s" % (kind, f))
         if model is not None:
             mp = [l for l in model if l.startswith("prep ")]
             for line, r, m in zip(plines, rp, mp):
@@ -317,7 +321,9 @@ def run_timeline(ck):
     st = {"timeline_cases": 0, "timeline_frames": 0, "timeline_skipped_modules": 0, "timeline_control_calls_ok": 0,
           "timeline_reconfigurations": 0, "timeline_nonsilent_frames": 0, "timeline_clipped_samples": 0,
           "timeline_samples_compared": 0, "timeline_loops_seen": 0, "site_frames": 0, "site_agree": 0,
-          "timeline_configs_per_case": 11, "timeline_crashes": 0}
+          "timeline_configs_per_case": 11, "timeline_crashes": 0,
+          "timeline_novoice_ticks": 0, "timeline_clamped_ticks": 0, "timeline_cases_with_clamp": 0, "timeline_slow_cases": 0,
+          "timeline_tempo_factor_rollbacks": 0}
     site_lines, site_expect = [], []
     fail_kinds = {}
     import collections
@@ -348,6 +354,11 @@ def run_timeline(ck):
             st["timeline_clipped_samples"] += s.get("clipped", 0)
             st["timeline_samples_compared"] += s.get("samples", 0)
             st["timeline_loops_seen"] += 1 if s.get("loops", 0) > 0 else 0
+            st["timeline_novoice_ticks"] += s.get("novoice", 0)
+            st["timeline_clamped_ticks"] += s.get("clampticks", 0)
+            st["timeline_cases_with_clamp"] += 1 if s.get("clampticks", 0) > 0 else 0
+            st["timeline_slow_cases"] += s.get("slow", 0)
+            st["timeline_tempo_factor_rollbacks"] += s.get("tfroll", 0)
             for cl in c["cfg"]:
                 kv = dict(x.split("=") for x in cl.split()[1:])
                 r = int(kv["rate"])
@@ -447,6 +458,8 @@ def replay(ck, rp):
         exe = vlib.build_harness("c13_downmix", ["c13_downmix.c"])
         script = "".join("one %d\n" % v for v in r.get("values", [])) + "vals %d %s\n" % (
             len(r.get("values", [])), " ".join(str(v) for v in r.get("values", [])))
+        if r.get("script"):
+            script = r["script"] + "\n"       # recorded prep lines (frames without voices)
         rc, out, err = vlib.run_exe(exe, [], script.encode())
         text = out.decode("latin-1")
         print(text[-3000:])
